@@ -39,7 +39,12 @@ Inductive cphase :=
 
 Inductive hphase := HBody | HExitWaiting | HExitEmptyCheckpoint | HLeft.
 
-Inductive fin := FBlock | FReturn (v : Z) | FRaise (e : Z) | FReraise.
+Inductive fin := FBlock | FReturn (v : Z) | FRaise (e : Z) | FReraise | FCancelOwn.
+(* FReraise: the callable lets the CancelledError it RECEIVED from a portal scope (own scope / group scope)
+   propagate.  FCancelOwn: the callable's own outcome is a cancellation that was not requested through the
+   portal: it raises CancelledError itself, it awaited an asyncio future/task that somebody cancelled, or a
+   third party called Task.cancel() on the call's task (a native CancelledError: never swallowed by the
+   call's CancelScope, because it is not an AnyIO cancellation). *)
 Inductive wake := WNormal | WInterrupt.
 Inductive outcome := ORet (v : Z) | ORaise (e : Z) | OCancelledOut.
 
@@ -200,6 +205,26 @@ Definition finish_cancelled (gc : bool) (c : call) : call :=
        end)
     OCancelledOut.
 
+(* A cancellation that is the callable's OWN outcome (FCancelOwn) propagates out of the await (or out of
+   func(args) for a sync callable).  It is never swallowed by the call's own scope (CancelScope.__exit__
+   only swallows AnyIO cancellations), so `except CancelledError: future.cancel();
+   future.set_running_or_notify_cancel()` runs and -- this is the point -- the exception is NOT re-raised:
+   the task ends normally, so the portal's task group is not affected.  For an awaitable call the
+   done-callback `callback` is registered and cancels the (already exited) scope. *)
+Definition finish_cancel_own (c : call) : call :=
+  with_done
+    (match c_fut c with
+     | CPending =>
+         let c1 := status_on_done (with_fut c CCancelled) in
+         match c_kind c1 with
+         | KSync => c1
+         | _ => if c_captured c1 then with_scope_cancelled c1 else c1
+         end
+     | CCancelled => c
+     | _ => with_invalid c
+     end)
+    OCancelledOut.
+
 (* task_status.started(v): Future.set_result on the status cell.  Calling it when the status cell is not
    pending (twice, or after it was resolved) raises inside the callable: API misuse, excluded (None). *)
 Definition apply_started (c : call) (sv : option Z) : option call :=
@@ -225,6 +250,7 @@ Definition body_step (gc : bool) (c : call) (w : wake) (sv : option Z) (f : fin)
                     | WInterrupt => Some (finish_cancelled gc c1)
                     | WNormal => None
                     end
+      | FCancelOwn => Some (finish_cancel_own c1)
       end
   end.
 
@@ -238,6 +264,7 @@ Definition first_step (run gc : bool) (c : call) (sv : option Z) (f : fin) : opt
       match sv, f with
       | None, FReturn v => Some (finish_ret c0 v)
       | None, FRaise e => Some (finish_exc c0 e)
+      | None, FCancelOwn => Some (finish_cancel_own c0)
       | _, _ => None
       end
   | _ =>
@@ -439,7 +466,7 @@ Definition decode_kind (a : Z) : kind :=
   match a with 0 => KSync | 1 => KCoro | _ => KStart end%Z.
 
 Definition decode_fin (c d : Z) : fin :=
-  match c with 0 => FBlock | 1 => FReturn d | 2 => FRaise d | _ => FReraise end%Z.
+  match c with 0 => FBlock | 1 => FReturn d | 2 => FRaise d | 4 => FCancelOwn | _ => FReraise end%Z.
 
 Definition decode_op (code k a b c d : Z) : op :=
   match code with
